@@ -93,3 +93,8 @@ Proof.
   apply B_loop; [vm_compute; reflexivity|vm_compute; reflexivity| |];
     apply blk_flat; vm_compute; reflexivity.
 Qed.
+
+(* F19: a block keyword directly followed by `(` or by `.` (float literal) is lexed as a Name *)
+Theorem C17_refuted_kw_before_dot :
+  nstmts (tx "CREATE PROCEDURE p() BEGIN IF .5 > x THEN select 1; END IF; END; select 2") = Ok 3%nat.
+Proof. vm_compute. reflexivity. Qed.
